@@ -15,6 +15,7 @@ import pickle
 import re
 import sys
 import time
+_real_time = time.time          # the harness measures its own wall time with the real clock (checks own a virtual one)
 import traceback
 
 VERIF = os.path.dirname(os.path.dirname(os.path.abspath(__file__)))
@@ -126,7 +127,7 @@ class Ctx:
         self.workers = workers
         self.quick = tier == 'quick'
         self.rec = Recorder()
-        self.t0 = time.time()
+        self.t0 = _real_time()
         self.bounds = {}          # name -> what was completed
         self.assumptions = []
         self.notes = []
@@ -151,7 +152,7 @@ class Ctx:
         Every worker enumerates gen() and executes the cases whose index is congruent to its id.
         """
         W = workers or self.workers
-        t0 = time.time()
+        t0 = _real_time()
         seed = self.seed
 
         def work(wid):
@@ -187,7 +188,7 @@ class Ctx:
         for r in recs:
             self.rec.merge(r)
         self.bounds.setdefault('phases', []).append(
-            dict(phase=name, wall_s=round(time.time() - t0, 2), evaluations=sum(r.evaluations for r in recs)))
+            dict(phase=name, wall_s=round(_real_time() - t0, 2), evaluations=sum(r.evaluations for r in recs)))
         return recs
 
     # ------------------------------------------------------------------------------------------
@@ -331,7 +332,7 @@ def load_known(prop):
 def finish(ctx):
     rec = ctx.rec
     prop = ctx.prop
-    wall = time.time() - ctx.t0
+    wall = _real_time() - ctx.t0
 
     failed_guards = [g for g in ctx.guards if not g[1]]
 
